@@ -1272,3 +1272,210 @@ func ruleRoutingTableWrites(r *Run) {
 	}
 	r.AtLeast(rule, "writes to the routing table", n, 3)
 }
+
+// rulePlanHandedToResolver (R4a.plan): the who-may-call entry for ResolveIntrospectionFields
+// pins WHO calls the resolver; this rule pins WHAT the caller hands it. The selection set is
+// followed backwards — through field and element reads, through parameters to every call site,
+// through local variables and captured variables to every assignment, through module functions
+// to every return — until it reaches the values it is read from: each of them must be the plan
+// the planner returned (result of Planner.Plan, by interface or on an implementation). A plan
+// or a step built by hand carries a selection set nobody has sanitised.
+func rulePlanHandedToResolver(r *Run) {
+	const rule = "R4a.plan"
+	var planner *types.Interface
+	for _, p := range r.P.Pkgs {
+		if p.PkgPath == plannerPkg && p.Types != nil {
+			if obj := p.Types.Scope().Lookup("Planner"); obj != nil {
+				planner, _ = obj.Type().Underlying().(*types.Interface)
+			}
+		}
+	}
+	if planner == nil {
+		r.Bad(rule, plannerPkg+".Planner", "anchor", "-", "the interface planner.Planner is not found: the rule cannot be evaluated")
+		return
+	}
+	isPlanCall := func(c *ssa.CallCommon) bool {
+		if c.IsInvoke() {
+			return c.Method.Name() == "Plan" && types.Identical(c.Value.Type().Underlying(), planner)
+		}
+		sc := c.StaticCallee()
+		return sc != nil && sc.Name() == "Plan" && sc.Signature.Recv() != nil && types.Implements(sc.Signature.Recv().Type(), planner)
+	}
+	type root struct {
+		what string
+		pos  token.Pos
+		ok   bool
+	}
+	n := 0
+	for _, fn := range r.P.Funcs {
+		if fn.Pkg != nil && fn.Pkg.Pkg.Path() == introPkg {
+			continue
+		}
+		for _, ins := range allInstrs(fn) {
+			ci, ok := ins.(ssa.CallInstruction)
+			if !ok {
+				continue
+			}
+			sc := ci.Common().StaticCallee()
+			if sc == nil || fnName(sc) != "introspection.(*IntrospectionResolver).ResolveIntrospectionFields" || len(ci.Common().Args) < 2 {
+				continue
+			}
+			n++
+			var roots []root
+			seen := map[ssa.Value]bool{}
+			var trace func(v ssa.Value, res int, depth int)
+			bad := func(what string, pos token.Pos) { roots = append(roots, root{what, pos, false}) }
+			trace = func(v ssa.Value, res int, depth int) {
+				v = unwrap(v)
+				if seen[v] {
+					return
+				}
+				seen[v] = true
+				if depth > 40 {
+					bad("a value too far from the call to be followed", v.Pos())
+					return
+				}
+				switch x := v.(type) {
+				case *ssa.UnOp:
+					if x.Op != token.MUL {
+						bad("the result of an operation", x.Pos())
+						return
+					}
+					switch a := x.X.(type) {
+					case *ssa.FieldAddr:
+						trace(a.X, 0, depth+1)
+					case *ssa.IndexAddr:
+						trace(a.X, 0, depth+1)
+					case *ssa.Alloc:
+						// a local variable: every value assigned to it
+						sts := storesTo(a)
+						if len(sts) == 0 {
+							bad("a variable that is never assigned", a.Pos())
+						}
+						for _, st := range sts {
+							trace(st.Val, 0, depth+1)
+						}
+					case *ssa.FreeVar:
+						// a captured variable: every value assigned to the variable it captures
+						cl := x.Parent()
+						found := false
+						if cl.Parent() != nil {
+							for _, pi := range allInstrs(cl.Parent()) {
+								mc, ok := pi.(*ssa.MakeClosure)
+								if !ok || mc.Fn != cl {
+									continue
+								}
+								for i, fv := range cl.FreeVars {
+									if fv == a && i < len(mc.Bindings) {
+										found = true
+										if al, ok := mc.Bindings[i].(*ssa.Alloc); ok {
+											for _, st := range storesTo(al) {
+												trace(st.Val, 0, depth+1)
+											}
+										} else {
+											bad("a captured variable of unknown origin", a.Pos())
+										}
+									}
+								}
+							}
+						}
+						if !found {
+							bad("a captured variable of unknown origin", a.Pos())
+						}
+					default:
+						bad("a value read from memory of unknown origin", x.Pos())
+					}
+				case *ssa.Field:
+					trace(x.X, 0, depth+1)
+				case *ssa.Index:
+					trace(x.X, 0, depth+1)
+				case *ssa.Slice:
+					trace(x.X, 0, depth+1)
+				case *ssa.Phi:
+					for _, e := range x.Edges {
+						trace(e, res, depth+1)
+					}
+				case *ssa.Extract:
+					trace(x.Tuple, x.Index, depth+1)
+				case *ssa.FreeVar:
+					bad("the address of a captured variable", x.Pos())
+				case *ssa.Parameter:
+					pf := x.Parent()
+					idx := -1
+					for i, p := range pf.Params {
+						if p == x {
+							idx = i
+						}
+					}
+					k := 0
+					for _, e := range r.P.CG.In[pf] {
+						args := e.Site.Common().Args
+						if e.Kind != "static" || idx < 0 || idx >= len(args) {
+							k = -1 << 20
+							continue
+						}
+						k++
+						trace(args[idx], 0, depth+1)
+					}
+					if k <= 0 || isExported(pf) && pf.Parent() == nil {
+						bad("the parameter "+x.Name()+" of "+fnName(pf)+", whose callers are not all known", x.Pos())
+					}
+				case *ssa.Call:
+					if isPlanCall(&x.Call) {
+						if res == 0 {
+							roots = append(roots, root{"the plan returned by the planner", x.Pos(), true})
+						} else {
+							bad("a result of the planner other than the plan", x.Pos())
+						}
+						return
+					}
+					if sc := x.Call.StaticCallee(); sc != nil && sc.Blocks != nil && inModule(sc) {
+						rets := returnsOf(sc)
+						if len(rets) == 0 {
+							bad("the result of "+fnName(sc)+", which never returns", x.Pos())
+						}
+						for _, ret := range rets {
+							if res < len(ret.Results) {
+								trace(ret.Results[res], 0, depth+1)
+							}
+						}
+						return
+					}
+					bad("the result of "+calleeName(&x.Call), x.Pos())
+				case *ssa.Alloc:
+					bad("a "+shortType(derefType(x.Type()))+" built in "+fnName(x.Parent()), x.Pos())
+				case *ssa.Const:
+					// the nil list / nil plan selects nothing
+					if !x.IsNil() {
+						bad("a constant", x.Pos())
+					}
+				default:
+					bad("a "+shortType(v.Type())+" made in "+fnName(fn)+" by something other than the planner", v.Pos())
+				}
+			}
+			trace(ci.Common().Args[1], 0, 0)
+			var wrong []string
+			good := 0
+			for _, rt := range roots {
+				if rt.ok {
+					good++
+				} else {
+					wrong = append(wrong, rt.what+" ("+r.P.pos(rt.pos)+")")
+				}
+			}
+			sort.Strings(wrong)
+			switch {
+			case len(wrong) > 0:
+				r.Bad(rule, fnName(fn), "selection set handed to ResolveIntrospectionFields", r.P.pos(ins.Pos()),
+					"the selection set the resolver is given is read from "+strings.Join(wrong, "; ")+": not from the plan the planner returned, so nothing has expanded its fragments or dropped what the planner drops (C16)")
+			case good == 0:
+				r.Bad(rule, fnName(fn), "selection set handed to ResolveIntrospectionFields", r.P.pos(ins.Pos()),
+					"the selection set the resolver is given cannot be followed back to a call of Planner.Plan")
+			default:
+				r.OK(rule, fnName(fn), "selection set handed to ResolveIntrospectionFields", r.P.pos(ins.Pos()),
+					fmt.Sprintf("every value the selection set is read from is the plan returned by Planner.Plan (%d call(s)), followed through fields, elements, parameters and variables", good))
+			}
+		}
+	}
+	r.AtLeast(rule, "calls of ResolveIntrospectionFields outside its package", n, 1)
+}
